@@ -177,6 +177,9 @@ def run(tier, seed, findings, schemas=None, extra_check=None):
         docs = [d for d in D.corpus(name, 8 if tier == "quick" else 40, seed) if d.content.size <= 26]
         # slices of any open depth cut from arbitrary other documents (payload-valid ones)
         pool = [s for s in D.slice_pool(name, D.corpus(name, 20, seed + 1), rnd, 40 if tier == "quick" else 150) if ops.slice_ok(O, s)]
+        # ... and slices whose first / last node is a chain of emptied nodes followed by further top-level content
+        rnd_f = random.Random(seed * 13 + 5)
+        front = [s for s in D.frontier_slices(name, D.corpus(name, 30, seed + 2), rnd_f, 24 if tier == "quick" else 80) if ops.slice_ok(O, s)]
         nodes = payloads(name, S, O, pool, rnd)
         for doc in docs:
             toks = orc.tokens(doc)
@@ -194,7 +197,7 @@ def run(tier, seed, findings, schemas=None, extra_check=None):
                     if op in ("delete", "delete_range"):
                         cases = [(None, "-", [])]
                     elif op in ("replace", "replace_range"):
-                        ss = rnd.sample(pool, min(len(pool), 3 if tier == "quick" else 10))
+                        ss = rnd.sample(pool, min(len(pool), 3 if tier == "quick" else 10)) + rnd_f.sample(front, min(len(front), 2 if tier == "quick" else 6))
                         cases = [(s, D.slice_json(s), orc.leafseq_frag(s.content) if hasattr(orc, "leafseq_frag") else [x for x in orc.frag_tokens(s.content) if x[0] in ("char", "leaf")]) for s in ss]
                     else:
                         nn = rnd.sample(nodes, min(len(nodes), 3 if tier == "quick" else 6))
